@@ -324,3 +324,18 @@ def run(repo: Repo, chk: Check, thorough: bool = False) -> None:
     if n67 < 8:
         raise AnalysisError(f'R16.7: {n67} safe_to_stan calls with a known linker owner found (10 confirmed by reading)')
     chk.require('R16.7', 8)
+
+    # ------------------------------------------------------------------ R16.4 (addition): a new docstring text invalidates the parse of the old one
+    # an attribute documented by an `@ivar` field of its class gets that field body as parsed_docstring (extract_fields); when the attribute's own inline
+    # docstring is met later, setDocstring() replaces text and line - the parse has to go too, or the FIELD's text is rendered and its problems are reported
+    # with offsets of the class docstring added to the line of the inline docstring (`m.py:15` in an 11-line file)
+    sd = repo.func('pydoctor.model.Documentable.setDocstring')
+    sets_text = any(isinstance(n, ast.Assign) and any(isinstance(t, ast.Attribute) and t.attr == 'docstring' and dotted(t.value) == 'self' for t in n.targets) for n in sd.walk())
+    resets = any(isinstance(n, ast.Assign) and any(isinstance(t, ast.Attribute) and t.attr == 'parsed_docstring' and dotted(t.value) == 'self' for t in n.targets) and
+                 isinstance(n.value, ast.Constant) and n.value.value is None for n in sd.walk())
+    if not sets_text:
+        raise AnalysisError('R16.4: Documentable.setDocstring no longer assigns self.docstring')
+    chk.ob('R16.4', 'pydoctor.model.Documentable.setDocstring :: the parse of a previous text is dropped with it', resets,
+           'self.parsed_docstring = None' if resets else
+           'text and line are replaced, the parsed form is kept: for an attribute that is documented both by an `@ivar` field of its class and by an inline docstring the field '
+           'is rendered, and its problems are reported at <line of the inline docstring> + <offset inside the class docstring>', sd.loc)
